@@ -54,16 +54,26 @@ class ByNameEnumMappingGenerator(BaseEnumMappingGenerator):
         map: Optional[Mapping[Union[str, Enum], str]] = None,  # noqa: A002
     ):
         self._name_style = name_style
-        self._map = map if map is not None else {}
+        # members of enums with a mixed-in data type (``str``, ``int``) are equal to their values,
+        # so keys that are members are matched by identity and only the other keys are treated as names
+        self._member_map = [(key, mapped) for key, mapped in (map or {}).items() if isinstance(key, Enum)]
+        self._name_map = {key: mapped for key, mapped in (map or {}).items() if not isinstance(key, Enum)}
+
+    def _find_by_member(self, case: Enum) -> Optional[str]:
+        for key, mapped in self._member_map:
+            if key is case:
+                return mapped
+        return None
 
     def _generate_mapping(self, cases: Iterable[EnumT]) -> Mapping[EnumT, str]:
         result = {}
 
         for case in cases:
-            if case in self._map:
-                mapped = self._map[case]
-            elif case.name in self._map:
-                mapped = self._map[case.name]
+            mapped_by_member = self._find_by_member(case)
+            if mapped_by_member is not None:
+                mapped = mapped_by_member
+            elif case.name in self._name_map:
+                mapped = self._name_map[case.name]
             elif self._name_style:
                 mapped = convert_snake_style(case.name, self._name_style)
             else:
